@@ -14,7 +14,7 @@ from gvmon.gen import records as R
 from gvmon.models import dialect as M
 from gvmon.monitors import contracts, sqltrace
 
-RULE = ("files of n in {1,2,3,5,10,11,12,25,40} feature lines rendered in one of 36 dialect points (uniform regime: every "
+RULE = ("files of n in {1,2,3,5,10,11,12,25,40} feature lines rendered in one of 48 dialect points (uniform regime: every "
         "line exhibits every dialect feature; sparse regime: arbitrary line shapes, kept only when the reference vote "
         "recovers the dialect), x checklines in {0,1,2,10,n-1,n,n+2} x {file,:memory:} x {error+unique ids, "
         "create_unique+duplicate ids} x keep_order x sort_attribute_values x {path, from_string}, with '.' coordinates, "
@@ -23,7 +23,7 @@ RULE = ("files of n in {1,2,3,5,10,11,12,25,40} feature lines rendered in one of
         "hashed together with the file text")
 REQUIRED = ["imports", "stored features compared", "byte-identical prints", "reopen comparisons", "re-import comparisons",
             "sql: INSERT INTO features"]
-REQUIRED_CLASSES = ["fmt=gff3", "fmt=gtf", "fmt=gff2", "db=file", "db=memory", "strategy=error", "strategy=create_unique",
+REQUIRED_CLASSES = ["fmt=gff3", "fmt=gtf", "fmt=gff2", "fmt=gff3q", "db=file", "db=memory", "strategy=error", "strategy=create_unique",
                     "regime=uniform", "regime=sparse"]
 ASSUMPTIONS = [
     "'written in one consistent dialect' = reference rendering of every line under one dialect point; a sparse file is "
@@ -262,7 +262,7 @@ def reimport(ctx, case, db, kw, text):
     finally:
         if src_db is not db:
             src_db.conn.close()
-    if case["D"]["fmt"] == "gff3":
+    if case["D"]["fmt"] in ("gff3", "gff3q"):
         # keep_order=True prints keys in the file-wide first-seen order, which can move a valueless flag to the
         # front of a key=value line; such a line is outside the grammar (see ASSUMPTIONS), so its re-import is not judged
         for ln in printed:
